@@ -383,6 +383,7 @@ func init() {
 		c.Rule = "complete enumeration of (mode) x (content-kind sequences up to length 2 [3 thorough]; every string class in every string field of every kind; result flags / structured content / _meta / annotations; prompt messages; resource contents; handler error texts; descriptors); distinct by (mode, case); every case is non-trivial (a full client/server round trip on real code); plus a preemption-bounded DFS of three calls in flight on one client (long text, short text, resource), each caller obtaining its own value"
 		c.Assume = append(c.Assume, "equality is judged on the JSON normal form (sorted keys, numbers as JSON numbers) of the server-side value and of the value the client API returns", "invalid UTF-8 is compared after encoding/json's documented replacement by U+FFFD", "memnet replaces net/http and pipes; deterministic default schedule")
 		c.Enumerate("c02/fidelity")
+		c.Enumerate("c02/reregistered")
 		for _, mode := range AllModes {
 			c.DFS("c02/concurrent/"+mode, explore.Bounds{Preempt: c.Pick(1, 2), Dev: 0, POR: true, MaxExec: c.Pick(1500, 60000)})
 		}
@@ -723,4 +724,119 @@ func init() {
 		RegisterScenario(&Scenario{Name: "c02/concurrent/" + mode, Doc: "three callers on one client ask for a long text, a short text and a resource at the same time; each obtains the value its own handler returned",
 			Run: func(p []int, m []vsched.ChoicePoint) explore.Outcome { return c02Concurrent(p, mode) }})
 	}
+}
+
+// ---- an entry registered twice ---------------------------------------------------------------------
+//
+// "descriptors listed by the client equal the ones registered", "whatever a registered handler
+// returns is what the caller obtains": when the application registers a name again (a new version
+// of a tool, a prompt whose wording changed), the registration in force is the later one - its
+// descriptor is listed, once, and its handler answers.
+func c02Reregistered(tier string, i int) CaseResult {
+	mode := AllModes[i%len(AllModes)]
+	kind := []string{"tool", "prompt", "resource"}[i/len(AllModes)]
+	cr := CaseResult{Desc: fmt.Sprintf("mode=%s a %s registered twice under one name", mode, kind), Nontrivial: true}
+	var viol []explore.Violation
+	obs := &hx.Log{}
+	key := func(k string) string { return fmt.Sprintf("%s:reregistered-%s:%s", k, kind, mode) }
+	res := vsched.Run(vsched.Config{}, func() {
+		r := NewRig(mode)
+		for _, v := range []string{"first", "second"} {
+			v := v
+			switch kind {
+			case "tool":
+				r.RegisterTool(mcp.NewTool("x", mcp.WithDescription(v+" version"), mcp.WithString(v+"-param")), func(ctx context.Context, req *mcp.CallToolRequest) (*mcp.CallToolResult, error) {
+					return mcp.NewTextResult("from the " + v + " handler"), nil
+				})
+			case "prompt":
+				r.RegisterPrompt(&mcp.Prompt{Name: "x", Description: v + " version", Arguments: []mcp.PromptArgument{{Name: v + "-arg"}}}, func(ctx context.Context, req *mcp.GetPromptRequest) (*mcp.GetPromptResult, error) {
+					return &mcp.GetPromptResult{Description: "from the " + v + " handler", Messages: []mcp.PromptMessage{}}, nil
+				})
+			case "resource":
+				r.RegisterResource(&mcp.Resource{Name: "x", URI: "res://x", Description: v + " version"}, func(ctx context.Context, req *mcp.ReadResourceRequest) (mcp.ResourceContents, error) {
+					return mcp.TextResourceContents{URI: "res://x", Text: "from the " + v + " handler"}, nil
+				})
+			}
+		}
+		r.Start()
+		cl, err := r.Connect()
+		if err != nil {
+			viol = append(viol, V("setup-handshake-fails", "setting the scenario up with well-behaved peers fails: %v", err))
+			return
+		}
+		ctx := context.Background()
+		var listed []string
+		var answer string
+		var e1, e2 error
+		switch kind {
+		case "tool":
+			var o *mcp.ListToolsResult
+			o, e1 = cl.ListTools(ctx, &mcp.ListToolsRequest{})
+			if o != nil {
+				for _, t := range o.Tools {
+					listed = append(listed, t.Name+":"+t.Description+":"+c02PropNames(t.RawInputSchema))
+				}
+			}
+			rq := &mcp.CallToolRequest{}
+			rq.Params.Name = "x"
+			var out *mcp.CallToolResult
+			out, e2 = cl.CallTool(ctx, rq)
+			answer = TextOf(out)
+		case "prompt":
+			var o *mcp.ListPromptsResult
+			o, e1 = cl.ListPrompts(ctx, &mcp.ListPromptsRequest{})
+			if o != nil {
+				for _, p := range o.Prompts {
+					a := ""
+					if len(p.Arguments) == 1 {
+						a = p.Arguments[0].Name
+					}
+					listed = append(listed, p.Name+":"+p.Description+":"+a)
+				}
+			}
+			rq := &mcp.GetPromptRequest{}
+			rq.Params.Name = "x"
+			var out *mcp.GetPromptResult
+			out, e2 = cl.GetPrompt(ctx, rq)
+			if out != nil {
+				answer = out.Description
+			}
+		case "resource":
+			var o *mcp.ListResourcesResult
+			o, e1 = cl.ListResources(ctx, &mcp.ListResourcesRequest{})
+			if o != nil {
+				for _, p := range o.Resources {
+					listed = append(listed, p.Name+":"+p.Description+":")
+				}
+			}
+			rq := &mcp.ReadResourceRequest{}
+			rq.Params.URI = "res://x"
+			var out *mcp.ReadResourceResult
+			out, e2 = cl.ReadResource(ctx, rq)
+			if out != nil && len(out.Contents) == 1 {
+				if t, ok := out.Contents[0].(mcp.TextResourceContents); ok {
+					answer = t.Text
+				}
+			}
+		}
+		want := map[string]string{"tool": "x:second version:second-param", "prompt": "x:second version:second-arg", "resource": "x:second version:"}[kind]
+		if e1 != nil || len(listed) != 1 || listed[0] != want {
+			viol = append(viol, V(key("descriptor"), "the %s was registered twice under the name x (first version, then second version); the client lists %v (%v), want exactly [%s]", kind, listed, e1, want))
+		}
+		if e2 != nil || answer != "from the second handler" {
+			viol = append(viol, V(key("handler"), "the %s was registered twice under the name x; the caller obtains %q (%v), the handler in force returns: from the second handler", kind, answer, e2))
+		}
+		obs.Add("listed=%v answer=%s", listed, answer)
+		cl.Close()
+	})
+	o := finishOutcome(res, obs, viol, true)
+	cr.ObsKey = cr.Desc + "|" + o.ObsKey
+	cr.Violations = o.Violations
+	cr.Broken = o.Broken
+	return cr
+}
+
+func init() {
+	RegisterEnum(&Enum{Name: "c02/reregistered", Doc: "a tool, a prompt, a resource registered twice under one name (different description, parameters and handler) on every transport: the later descriptor is listed, once, and the later handler answers",
+		Count: func(string) int { return 3 * len(AllModes) }, Eval: c02Reregistered})
 }
